@@ -1,0 +1,66 @@
+//go:build verif
+
+package font
+
+// Contracts for gocv (comment-only; see /verif/DESIGN.md).  No executable code.
+
+// ---- C07: character codes decode to the Unicode the font specifies ----
+
+//@ func (*standardEncoding) Decode results (r)
+//@   property C07
+//@   flags readonly
+//@   ensures r == e.table[b]
+
+// number of bytes among the first n whose table entry is mapped (non-zero)
+//@ spec rec func mappedCount(e standardEncoding, data []byte, n int) int = n <= 0 ? 0 : mappedCount(e, data, n - 1) + (e.table[data[n-1]] != 0 ? 1 : 0)
+
+// the decoded scalars are exactly the mapped table entries of the input bytes, in order
+//@ func (*standardEncoding) DecodeString results (r)
+//@   property C07
+//@   flags readonly
+//@   ensures count: len(runes) == mappedCount(e, data, len(data))
+//@   ensures in_order: forall j int :: {data[j]} 0 <= j && j < len(data) && e.table[data[j]] != 0 ==> runes[mappedCount(e, data, j)] == e.table[data[j]]
+//@   loop 0:
+//@     invariant len(runes) == mappedCount(e, data, $i) && len(runes) <= $i
+//@     invariant forall j int :: {data[j]} 0 <= j && j < $i && e.table[data[j]] != 0 ==> mappedCount(e, data, j) < len(runes) && runes[mappedCount(e, data, j)] == e.table[data[j]]
+
+// UTF-16 (RFC 2781), big endian.  u = the scalar values a conforming encoder started from, off[k] = byte offset of the
+// encoding of u[k]; BMP scalars take one code unit, supplementary ones a surrogate pair.
+//@ spec func be16(data []byte, p int) int = data[p] * 256 + data[p+1]
+//@ spec func le16(data []byte, p int) int = data[p] + data[p+1] * 256
+//@ spec func isSurrogate(v int) bool = v >= 55296 && v <= 57343
+//@ spec func utf16Unit(u int, first bool) int = u < 65536 ? u : (first ? 55296 + div(u - 65536, 1024) : 56320 + mod(u - 65536, 1024))
+
+//@ func DecodeUTF16BE results (r)
+//@   property C07, C02
+//@   ghost u []int
+//@   ghost off []int
+//@   requires mod(len(data), 2) == 0 && len(off) == len(u) + 1 && off[0] == 0 && off[len(u)] == len(data)
+//@   requires scalars: forall k int :: {u[k]} 0 <= k && k < len(u) ==> 0 <= u[k] && u[k] <= 1114111 && !isSurrogate(u[k])
+//@   requires layout: forall k int :: {off[k]} 0 <= k && k < len(u) ==> 0 <= off[k] && off[k+1] == off[k] + (u[k] < 65536 ? 2 : 4) && off[k+1] <= len(data)
+//@   requires encoded: forall k int :: {u[k]} 0 <= k && k < len(u) ==> be16(data, off[k]) == utf16Unit(u[k], true) && (u[k] >= 65536 ==> be16(data, off[k] + 2) == utf16Unit(u[k], false))
+//@   requires monotone: forall a int, b int :: {off[a], off[b]} 0 <= a && a < b && b <= len(u) ==> off[a] < off[b]
+//@   ensures decoded: len(data) > 0 ==> len(runes) == len(u) && forall k int :: {runes[k]} 0 <= k && k < len(u) ==> runes[k] == u[k]
+//@   loop 0:
+//@     invariant 0 <= i && i <= len(data) && mod(i, 2) == 0 && len(data) == len(old(data)) && same(data, old(data))
+//@     invariant len(runes) <= len(u) && i == off[len(runes)]
+//@     invariant forall k int :: {runes[k]} 0 <= k && k < len(runes) ==> runes[k] == u[k]
+//@     split u[len(runes)] < 65536
+//@     decreases len(data) - i
+
+//@ func DecodeUTF16LE results (r)
+//@   property C07, C02
+//@   ghost u []int
+//@   ghost off []int
+//@   requires mod(len(data), 2) == 0 && len(off) == len(u) + 1 && off[0] == 0 && off[len(u)] == len(data)
+//@   requires scalars: forall k int :: {u[k]} 0 <= k && k < len(u) ==> 0 <= u[k] && u[k] <= 1114111 && !isSurrogate(u[k])
+//@   requires layout: forall k int :: {off[k]} 0 <= k && k < len(u) ==> 0 <= off[k] && off[k+1] == off[k] + (u[k] < 65536 ? 2 : 4) && off[k+1] <= len(data)
+//@   requires encoded: forall k int :: {u[k]} 0 <= k && k < len(u) ==> le16(data, off[k]) == utf16Unit(u[k], true) && (u[k] >= 65536 ==> le16(data, off[k] + 2) == utf16Unit(u[k], false))
+//@   requires monotone: forall a int, b int :: {off[a], off[b]} 0 <= a && a < b && b <= len(u) ==> off[a] < off[b]
+//@   ensures decoded: len(data) > 0 ==> len(runes) == len(u) && forall k int :: {runes[k]} 0 <= k && k < len(u) ==> runes[k] == u[k]
+//@   loop 0:
+//@     invariant 0 <= i && i <= len(data) && mod(i, 2) == 0 && len(data) == len(old(data)) && same(data, old(data))
+//@     invariant len(runes) <= len(u) && i == off[len(runes)]
+//@     invariant forall k int :: {runes[k]} 0 <= k && k < len(runes) ==> runes[k] == u[k]
+//@     split u[len(runes)] < 65536
+//@     decreases len(data) - i
